@@ -115,8 +115,50 @@ macro_rules! view_cells {
     };
 }
 
+// ---- what `handle.into_opaque()` written as a METHOD CALL resolves to (inherent methods and auto-ref take part in the
+// resolution, trait bounds of one impl do not decide it alone): the type of the result and its markers, read off the value
+// by auto-ref specialisation ----
+struct W<T>(T);
+trait SendYes { fn v_send(&self) -> bool { true } }
+impl<T: Send> SendYes for W<T> {}
+trait SendNo { fn v_send(&self) -> bool { false } }
+impl<T> SendNo for &W<T> {}
+trait SyncYes { fn v_sync(&self) -> bool { true } }
+impl<T: Sync> SyncYes for W<T> {}
+trait SyncNo { fn v_sync(&self) -> bool { false } }
+impl<T> SyncNo for &W<T> {}
+fn tname<T>(_: &T) -> &'static str { std::any::type_name::<T>() }
+
+macro_rules! mcall {
+    ($out:ident, $i:expr, $p:expr, $h:expr) => {{
+        let h = $h;
+        let r = h.into_opaque();
+        let name = tname(&r);
+        let w = W(r);
+        let (s, y) = ((&w).v_send(), (&w).v_sync());
+        // the result may own a payload that must not be dropped on this thread's exit path twice: just leak it
+        std::mem::forget(w);
+        $out.push(serde_json::json!({"w": "mcall", "i": $i, "p": $p, "exists": true, "result": name,
+            "base": {"Send": false, "Sync": false}, "conv": false, "opaque": {"Send": s, "Sync": y}}));
+    }};
+}
+macro_rules! mcall_cells {
+    ($out:ident, $p:expr, $mk:expr) => {
+        mcall!($out, "ref", $p, &*Box::leak(Box::new($mk)));
+        mcall!($out, "mut", $p, &mut *Box::leak(Box::new($mk)));
+        mcall!($out, "cbox", $p, CBox::from($mk));
+        mcall!($out, "cslicebox", $p, CSliceBox::from(vec![$mk].into_boxed_slice()));
+        mcall!($out, "carc", $p, CArc::from($mk));
+        mcall!($out, "carcsome", $p, CArcSome::from($mk));
+    };
+}
+
 fn main() {
     let mut out: Vec<serde_json::Value> = vec![];
+    mcall_cells!(out, "SendSync", SS(1));
+    mcall_cells!(out, "SendOnly", SO(Cell::new(1)));
+    mcall_cells!(out, "SyncOnly", YO(PhantomData, 1));
+    mcall_cells!(out, "Neither", NN(Rc::new(1)));
     view_cells!(out, "SendSync", SS);
     view_cells!(out, "SendOnly", SO);
     view_cells!(out, "SyncOnly", YO);
